@@ -109,14 +109,17 @@ SP == 32
 \* string grouping values that collide when printed side by side: ("a b", "c") vs ("a", "b c")
 UV == {<<StrV(<<A, SP, B>>), StrV(<<99>>)>>, <<StrV(<<A>>), StrV(<<B, SP, 99>>)>>}
 \* grouping values that collide when printed and concatenated: (1,23) vs (12,3); measures with NULLs
-Rows7 == {<<IntV(p[1]), IntV(p[2]), IntV(m), n, uv[1], uv[2]>> : p \in {<<1, 23>>, <<12, 3>>, <<1, 2>>}, m \in {0, 1, 2, 101}, n \in {Null, IntV(3)}, uv \in UV}
+Rows7 == {<<IntV(p[1]), IntV(p[2]), IntV(m), n, uv[1], uv[2]>> : p \in {<<1, 23>>, <<12, 3>>, <<1, 2>>}, m \in {0, 1, 2, 101, -5, -8}, n \in {Null, IntV(3)}, uv \in UV}
 Tables7 == {[cols |-> Cols7, rows |-> r] : r \in SeqsUpTo(Rows7, 2)}
            \cup {[cols |-> Cols7, rows |-> <<r1, r2 \o uv, r3 \o uv>>] : r1 \in Rows7, uv \in UV, r2 \in {<<IntV(1), IntV(23), IntV(0), Null>>, <<IntV(12), IntV(3), IntV(1), IntV(3)>>},
                      r3 \in {<<IntV(1), IntV(23), IntV(1), IntV(3)>>, <<IntV(1), IntV(2), IntV(0), Null>>}}
-           \cup {[cols |-> Cols7, rows |-> [i \in 1..4 |-> <<IntV(1), IntV(2), IntV(m[i]), Null, StrV(<<A>>), StrV(<<B>>)>>]] : m \in {<<1, 0, 0, 0>>, <<0, 0, 0, 1>>, <<2, 1, 1, 1>>, <<0, 1, 0, 1>>, <<101, 0, 0, 2>>}}
+           \cup {[cols |-> Cols7, rows |-> [i \in 1..4 |-> <<IntV(1), IntV(2), IntV(m[i]), Null, StrV(<<A>>), StrV(<<B>>)>>]] : m \in {<<1, 0, 0, 0>>, <<0, 0, 0, 1>>, <<2, 1, 1, 1>>, <<0, 1, 0, 1>>, <<101, 0, 0, 2>>,
+                                                                                                                                   <<-5, -5, -5, -4>>, <<-7, -3, -4, -5>>, <<-1, 0, -2, 3>>}}
 Agg(k, c) == Item(k, Ref("", c), NoCmp, "")
 ListGroups7 ==
   {[list |-> <<Agg("count", "")>>, group |-> <<>>], [list |-> <<Agg("avg", "m"), Agg("countcol", "n")>>, group |-> <<>>],
+   [list |-> <<Agg("countcol", "n")>>, group |-> <<>>], [list |-> <<Agg("avg", "m")>>, group |-> <<>>],       \* a lone aggregate
+   [list |-> <<Item("countcol", Ref("", "n"), NoCmp, "c")>>, group |-> <<>>],
    [list |-> <<Agg("countcol", "n"), Agg("count", ""), Agg("avg", "m")>>, group |-> <<>>],
    [list |-> <<ColItem("", "p", ""), Agg("count", "")>>, group |-> <<Ref("", "p")>>],
    [list |-> <<Agg("count", ""), ColItem("", "p", "")>>, group |-> <<Ref("", "p")>>],                  \* grouping column not first
@@ -135,6 +138,7 @@ FromSelf7 == <<From1("t7", "x"), [tbl |-> "t7", alias |-> "y", jt |-> "inner", o
 JoinListGroups7 ==
   {[list |-> <<ColItem("x", "p", ""), Agg("count", ""), QAgg("avg", "x", "m"), QAgg("avg", "y", "m")>>, group |-> <<Ref("x", "p")>>],
    [list |-> <<QAgg("avg", "y", "m"), QAgg("avg", "x", "m")>>, group |-> <<>>],
+   [list |-> <<QAgg("countcol", "y", "n")>>, group |-> <<>>],
    [list |-> <<ColItem("y", "q", "g"), QAgg("countcol", "x", "n"), QAgg("avg", "x", "q")>>, group |-> <<Ref("", "g")>>]}
 Wheres7 == {<<>>, << <<Cmp(Col("", "m"), "<", Lit(IntV(100)))>> >>, << <<Cmp(Col("", "p"), "=", Lit(IntV(1)))>>, <<Cmp(Col("", "q"), "=", Lit(IntV(3)))>> >>}
 
